@@ -701,7 +701,7 @@ def c_obj_history(ctx, args):
     return history.reused_object_history(ctx, kind, n, seed, steps, which, be=be)
 
 
-CHECKS = {'ctor_arg': c_ctor_arg, 'obj_history': c_obj_history, 'plain_args': c_plain_args, 'empties': c_empties, 'ctor_fresh': c_ctor_fresh, 'copy': c_copy, 'query': c_query, 'inplace': c_inplace, 'torch_copy': c_torch_copy}
+CHECKS = {'compose_independent': __import__('props.C09', fromlist=['c_compose_independent']).c_compose_independent, 'ctor_arg': c_ctor_arg, 'obj_history': c_obj_history, 'plain_args': c_plain_args, 'empties': c_empties, 'ctor_fresh': c_ctor_fresh, 'copy': c_copy, 'query': c_query, 'inplace': c_inplace, 'torch_copy': c_torch_copy}
 
 
 def run(ctx):
@@ -725,6 +725,12 @@ def run(ctx):
         be = ['np', 'torch'][it % 2]
         do(ctx, 'obj_history', ['map', rng.randint(1, 4), rng.randrange(10 ** 6), rng.randint(4, 12), ['inverse', 'compose', 'to_state', 'copy'], be], nontrivial=('oh', be, it))
         do(ctx, 'obj_history', ['state', rng.randint(1, 4), rng.randrange(10 ** 6), rng.randint(4, 12), ['to_map', 'copy', 'expect', 'entropy'] + (['density_matrix'] if be == 'np' else []), be], nontrivial=('ohs', be, it))
+    from props.C09 import rprog as _rprog
+    for it in range(int(40 * B)):
+        N_ = rng.randint(1, 4)
+        pa = [] if it % 3 == 0 else _rprog(rng, ctx.model, N_, rng.randint(1, 3))
+        pb = _rprog(rng, ctx.model, N_, rng.randint(1, 3)) if it % 5 else []
+        do(ctx, 'compose_independent', [N_, pa, pb, _rprog(rng, ctx.model, N_, rng.randint(1, 2)), gen.rplist(rng, N_, 3), 'AB'[it % 2], False, ['np', 'torch'][it % 2]], nontrivial=('ci', it))
     for it in range(int(48 * B)):
         do(ctx, 'ctor_arg', [['np', 'torch'][it % 2], ['rotation_gate', 'rotation_map', 'stabilizer_state'][(it // 2) % 3], rng.randint(1, 4), rng.randrange(10 ** 6)], nontrivial=('ca', it))
     # the rank kernels work in place on whatever they are handed: entropy on larger, mixed and pure states, every block region
